@@ -95,7 +95,7 @@ Calibrated ==
        G == GridOf(P, "a")
        P2 == QuickCfgs[2].P               \* q in [-1,2]
        G2 == GridOf(P2, "a")
-   IN /\ Cardinality(G) = 4 * 3 * 3
+   IN /\ Len(G.pts) = 4 * 3 * 3 /\ G.ns = {1, 2}
       /\ Monotone(P, X, "x", "up", G) /\ ~Monotone(P, X, "x", "down", G)
       /\ Monotone(P, X, "y", "up", G) /\ Monotone(P, X, "y", "down", G)
       /\ Monotone(P, EB("div", X, Q), "x", "down", G) /\ ~Monotone(P, EB("div", X, Q), "x", "up", G)
